@@ -30,3 +30,6 @@ pub fn plan(w: &mut World, p: &Profile, _prop: &str) -> Plan {
 pub fn build(_spec: &CoSpec, _plan: &Plan) -> Box<dyn Root> {
     unreachable!("concurrent streams are not generated in the no_std configuration")
 }
+pub fn planned_items(_plan: &Plan) -> u32 {
+    0
+}
